@@ -269,7 +269,7 @@ def input_builder(sk, var="raw", plans=(), first_plan=0):
     else:
         # no zero-length stack array: with a zero-sized object in scope CBMC reports spurious free() preconditions
         # when an empty String (dangling pointer) is dropped
-        st.append("let %s: [u8; 1] = [0]; let text: &str = \"\";" % var)
+        st.append("let %s: [u8; 1] = [0]; let text: &str = \"\";  // EMPTY-TEXT (empty input)" % var)
     return st, cells
 
 
@@ -292,7 +292,7 @@ def input_from_cells(cells, var="raw"):
         st.append("let %s: [u8; %d] = [%s];" % (var, len(bytes_), ", ".join(bytes_)))
         st.append("let text: &str = unsafe { core::str::from_utf8_unchecked(&%s) };" % var)
     else:
-        st.append("let %s: [u8; 1] = [0]; let text: &str = \"\";" % var)
+        st.append("let %s: [u8; 1] = [0]; let text: &str = \"\";  // EMPTY-TEXT (empty stored text re-entered)" % var)
     return st, plain
 
 
